@@ -1,6 +1,7 @@
 package main
 
 import (
+	"crypto/ed25519"
 	"crypto/sha256"
 	"encoding/base64"
 	"encoding/json"
@@ -172,38 +173,15 @@ func absDoc(doc *did.Doc) *DocAbs {
 		}
 	}
 
-	// digest of what the document says (keys, key agreement, services), independent of serialisation details
+	// digest of what the document says: identifier, public key material, endpoint and recipient keys (independent
+	// of the serialisation: the legacy connection protocol re-encodes documents)
 	var parts []string
 
-	frag := func(id string) string {
-		if i := strings.Index(id, "#"); i >= 0 {
-			return id[i:]
-		}
-
-		return id
-	}
-
 	for i := range doc.VerificationMethod {
-		vm := &doc.VerificationMethod[i]
-		parts = append(parts, fmt.Sprintf("vm|%s|%s|%x", frag(vm.ID), vm.Type, vm.Value))
+		parts = append(parts, fmt.Sprintf("vm|%x", doc.VerificationMethod[i].Value))
 	}
 
-	for i := range doc.KeyAgreement {
-		vm := &doc.KeyAgreement[i].VerificationMethod
-		parts = append(parts, fmt.Sprintf("ka|%s|%s|%x", frag(vm.ID), vm.Type, vm.Value))
-	}
-
-	for i := range doc.Authentication {
-		parts = append(parts, fmt.Sprintf("au|%s", frag(doc.Authentication[i].VerificationMethod.ID)))
-	}
-
-	for i := range doc.Service {
-		s := &doc.Service[i]
-		uri, _ := s.ServiceEndpoint.URI()
-		rk, _ := s.ServiceEndpoint.RoutingKeys()
-		acc, _ := s.ServiceEndpoint.Accept()
-		parts = append(parts, fmt.Sprintf("svc|%s|%s|%v|%v|%v|%v|%v", s.Type, uri, s.RecipientKeys, s.RoutingKeys, rk, acc, s.Accept))
-	}
+	parts = append(parts, "ep|"+d.EP, "rk|"+strings.Join(d.Keys, ","))
 
 	sort.Strings(parts)
 	sum := sha256.Sum256([]byte(doc.ID + "\n" + strings.Join(parts, "\n")))
@@ -235,6 +213,7 @@ type World struct {
 	tr           map[string]*ATrace
 	inconclusive string
 	coq          bool // the case can be expressed for the model
+	coqWhy       string
 }
 
 func newWorld(cfg Config) (*World, error) {
@@ -260,6 +239,13 @@ func newWorld(cfg Config) (*World, error) {
 	}
 
 	return w, nil
+}
+
+func (w *World) noCoq(why string) {
+	w.coq = false
+	if w.coqWhy == "" {
+		w.coqWhy = why
+	}
 }
 
 func (w *World) close() {
@@ -398,6 +384,16 @@ func (w *World) cMsg(p *Packet) string {
 		return fmt.Sprintf("(MResponse DX %d %d %s 0)", w.th(p.Thread), w.did(str("did")), w.cODoc(absDoc(attachedDoc(p.Plain))))
 	case dxComplete:
 		return fmt.Sprintf("(MComplete DX %d)", w.th(p.Thread))
+	case lcRequest:
+		cd, cdoc := legacyConn(p.Plain["connection"])
+
+		return fmt.Sprintf("(MRequest LC %d %d %d %s)", w.th(p.Thread), w.inv(p.PThid), w.did(cd), w.cODoc(absDoc(cdoc)))
+	case lcResponse:
+		cd, cdoc, signer := legacySigned(p.Plain["connection~sig"])
+
+		return fmt.Sprintf("(MResponse LC %d %d %s %d)", w.th(p.Thread), w.did(cd), w.cODoc(absDoc(cdoc)), w.key(signer))
+	case lcAck:
+		return fmt.Sprintf("(MComplete LC %d)", w.th(p.Thread))
 	case basicType:
 		fd, fok := kidDID(p.FromKey)
 		td, tok := kidDID(p.ToKey)
@@ -414,6 +410,73 @@ func (w *World) cMsg(p *Packet) string {
 	}
 
 	return ""
+}
+
+// legacyConn reads the connection member of a legacy request ({DID, DIDDoc}).
+func legacyConn(v interface{}) (string, *did.Doc) {
+	m, ok := v.(map[string]interface{})
+	if !ok {
+		return "", nil
+	}
+
+	id, _ := m["DID"].(string)
+
+	raw, err := json.Marshal(m["DIDDoc"])
+	if err != nil {
+		return id, nil
+	}
+
+	doc, err := did.ParseDocument(raw)
+	if err != nil {
+		return id, nil
+	}
+
+	return id, doc
+}
+
+// legacySigned reads connection~sig of a legacy response: the signed connection and the key the signature verifies
+// under ("" if it does not verify under the key named as signer).
+func legacySigned(v interface{}) (string, *did.Doc, string) {
+	m, ok := v.(map[string]interface{})
+	if !ok {
+		return "", nil, ""
+	}
+
+	sd, _ := m["sig_data"].(string)
+	sg, _ := m["signature"].(string)
+	signer, _ := m["signer"].(string)
+
+	data, err := base64.URLEncoding.DecodeString(sd)
+	if err != nil || len(data) <= 8 {
+		return "", nil, ""
+	}
+
+	var c map[string]interface{}
+	if json.Unmarshal(data[8:], &c) != nil {
+		return "", nil, ""
+	}
+
+	id, doc := legacyConn(c)
+
+	sig, err := base64.URLEncoding.DecodeString(sg)
+	if err != nil {
+		return id, doc, ""
+	}
+
+	ck := canonKey(signer)
+	if !strings.HasPrefix(ck, "raw:") {
+		return id, doc, ""
+	}
+
+	var pub []byte
+
+	fmt.Sscanf(ck[4:], "%x", &pub)
+
+	if len(pub) != ed25519.PublicKeySize || !ed25519.Verify(ed25519.PublicKey(pub), data, sig) {
+		return id, doc, ""
+	}
+
+	return id, doc, signer
 }
 
 // kidDID mirrors getDIDGivenKey: an envelope key that is a JSON public key whose kid is a DID URL names the DID.
